@@ -1,4 +1,5 @@
 import Toodee.Spec.Cells
+import Toodee.Impl.Recv
 /-
   Spec layer: the cell functions the properties prescribe for each in-place operation (used as `gather buf (v.mapCells g)` /
   `v.updCells buf h`, see Spec/Cells.lean), and the size a view must have.  The property theorems (C03, C13–C17) state that
@@ -44,6 +45,21 @@ def sortColsG (p : List Nat) : Nat × Nat → Nat × Nat := fun cr => (p.getD cr
 
 /-- new row `j` is old row `p[j]`, in every column -/
 def sortRowsG (p : List Nat) : Nat × Nat → Nat × Nat := fun cr => (cr.1, p.getD cr.2 cr.2)
+
+/-- what std guarantees of a side sort whatever the comparator does: caller code panicked inside it (the panic propagates), or it
+    returns a permutation of the indices -/
+def SideSort.Sane (side : SideSort α) : Prop :=
+  ∀ keys, side keys = .error .panic ∨ ∃ p, side keys = .ok p ∧ p.Perm (List.range keys.length)
+
+/-- an operation whose model inputs respect the contracts of the std components they stand for -/
+def MOp.Sane : MOp α → Prop
+  | .sortRow side _ | .sortCol side _ => side.Sane
+  | _ => True
+
+/-- a well-formed source: its array satisfies the shape invariant -/
+def MOp.srcOk : MOp α → Prop
+  | .copyFromTooDee src => src.arr.Inv
+  | _ => True
 
 /-- the acceptance condition of every constructor, as a Bool (used by the oracle) -/
 def specShapeOk (c r : Nat) : Bool := decide ((c = 0 ↔ r = 0) ∧ c * r < WORD)
